@@ -140,7 +140,9 @@ theorem sub_loop (s : List (BitVec 8)) (start length : Int) :
           injection h with h; subst h
           have hsm := slice_mid s begin.toNat i hb1 hil
           rw [Int.toNat_of_nonneg hr.1] at hsm
-          simp [hi, hc', hr.1, hr.2, hsm, subPost, strNat_drop, strNat_take, natStr_strNat,
+          have e1 : (start + length == (count : Int)) = true := by simp [hr.2]
+          have e2 : ((count : Int) == start + length) = true := by simp [hr.2]
+          simp [hi, hc', hr.1, e1, e2, hsm, subPost, strNat_drop, strNat_take, natStr_strNat,
             List.drop_take]
         · simp only [hr, if_false] at h
           have := ih i' (count + 1) begin r hi'l (by intro hb0; have := hb hb0; omega) h
@@ -150,7 +152,9 @@ theorem sub_loop (s : List (BitVec 8)) (start length : Int) :
             by_cases h0 : 0 ≤ begin
             · right; intro e; exact hr ⟨h0, e⟩
             · left; omega
-          simp [hi, hc', hr', hidx, hsl, hadv]
+          have hr'' : (decide (begin ≥ 0) && ((count : Int) == start + length)) = false := by
+            rw [← hr']; congr 1; exact Bool.beq_comm
+          simp [hi, hc', hr', hr'', hidx, hsl, hadv]
     · simp only [hi, if_false] at h
       by_cases hb0 : begin < 0
       · simp only [hb0, if_true] at h
